@@ -8,6 +8,7 @@ import (
 	"io"
 	"os"
 	"os/exec"
+	"runtime/debug"
 	"runtime/metrics"
 	"strconv"
 	"strings"
@@ -24,12 +25,21 @@ import (
 // (load independent), sits for wallLimit, or grows the heap past heapLimit
 // makes the child announce the reason and exit; the supervisor turns that into
 // a hang violation for exactly that history and starts a new child.
+//
+// False alarms: the machine may be badly overloaded or even frozen for a
+// while. CPU time is load independent; the "blocked" limit counts scheduled
+// monitor ticks as well as wall time (a frozen process makes no ticks); and a
+// worker death is only reported after a second, fresh worker with a four times
+// larger CPU allowance gave up on the same history too.
 const (
-	workerEnv = "VERIF_C18_WORKER"
-	cpuLimit  = 150 * time.Millisecond // process CPU time, load independent; a normal replay costs ~20-100us
-	wallLimit = 30 * time.Second       // only reachable by a deadlock
-	heapLimit = 1 << 30
-	recycle   = 40000 // requests per child (bounds goroutines leaked by the library)
+	workerEnv    = "VERIF_C18_WORKER"
+	cpuLimit     = 250 * time.Millisecond // process CPU time; a normal replay costs ~20-100us
+	cpuConfirm   = 1000 * time.Millisecond
+	wallLimit    = 30 * time.Second // only reachable by a deadlock
+	monitorEvery = 5 * time.Millisecond
+	heapLimit    = 1 << 30
+	recycle      = 40000            // requests per child (bounds goroutines leaked by the library)
+	backstop     = 20 * time.Minute // the worker supervises itself; this is for a wedged process only
 )
 
 func IsWorker() bool { return os.Getenv(workerEnv) == "1" }
@@ -44,7 +54,8 @@ func cpuNow() time.Duration {
 
 // WorkerMain: read "<spec> <op,op,...>" lines, answer one JSON line each.
 func WorkerMain() {
-	var busySince, cpuAtStart atomic.Int64
+	var busySince, cpuAtStart, cpuAllowed, busyTicks atomic.Int64
+	debug.SetGCPercent(400)
 	die := func(reason string) {
 		_, _ = os.Stdout.Write([]byte("!" + reason + "\n"))
 		os.Exit(3)
@@ -52,16 +63,17 @@ func WorkerMain() {
 	go func() {
 		sample := []metrics.Sample{{Name: "/memory/classes/heap/objects:bytes"}}
 		for {
-			time.Sleep(5 * time.Millisecond)
+			time.Sleep(monitorEvery)
 			since := busySince.Load()
 			if since == 0 {
 				continue
 			}
-			if cpuNow()-time.Duration(cpuAtStart.Load()) > cpuLimit {
-				die("cpu: replay consumed more than " + cpuLimit.String() + " of CPU (spinning)")
+			ticks := busyTicks.Add(1)
+			if lim := time.Duration(cpuAllowed.Load()); cpuNow()-time.Duration(cpuAtStart.Load()) > lim {
+				die("cpu: replay consumed more than " + lim.String() + " of CPU (spinning)")
 			}
-			if time.Since(time.Unix(0, since)) > wallLimit {
-				die("wall: replay did not return within " + wallLimit.String() + " (blocked)")
+			if time.Since(time.Unix(0, since)) > wallLimit && ticks > int64(wallLimit/monitorEvery)/2 {
+				die("wall: replay did not return within " + wallLimit.String() + " while the process was being scheduled (blocked)")
 			}
 			metrics.Read(sample)
 			if sample[0].Value.Kind() == metrics.KindUint64 && sample[0].Value.Uint64() > heapLimit {
@@ -73,11 +85,13 @@ func WorkerMain() {
 	in.Buffer(make([]byte, 1<<16), 1<<16)
 	out := bufio.NewWriter(os.Stdout)
 	for in.Scan() {
-		spec, hist, err := parseReq(in.Text())
+		spec, cpuMs, hist, err := parseReq(in.Text())
 		if err != nil {
 			fmt.Fprintln(os.Stderr, "bad request:", err)
 			os.Exit(2)
 		}
+		cpuAllowed.Store(int64(time.Duration(cpuMs) * time.Millisecond))
+		busyTicks.Store(0)
 		cpuAtStart.Store(int64(cpuNow()))
 		busySince.Store(time.Now().UnixNano())
 		res := replay(specs[spec], hist)
@@ -89,9 +103,11 @@ func WorkerMain() {
 	}
 }
 
-func formatReq(spec int, hist []int) string {
+func formatReq(spec int, cpu time.Duration, hist []int) string {
 	var b strings.Builder
 	b.WriteString(strconv.Itoa(spec))
+	b.WriteByte(' ')
+	b.WriteString(strconv.Itoa(int(cpu / time.Millisecond)))
 	b.WriteByte(' ')
 	for i, o := range hist {
 		if i > 0 {
@@ -103,23 +119,28 @@ func formatReq(spec int, hist []int) string {
 	return b.String()
 }
 
-func parseReq(line string) (int, []int, error) {
+func parseReq(line string) (int, int, []int, error) {
 	sp, rest, _ := strings.Cut(line, " ")
 	spec, err := strconv.Atoi(sp)
 	if err != nil || spec < 0 || spec >= len(specs) {
-		return 0, nil, fmt.Errorf("spec %q", sp)
+		return 0, 0, nil, fmt.Errorf("spec %q", sp)
+	}
+	cs, rest, _ := strings.Cut(rest, " ")
+	cpuMs, err := strconv.Atoi(cs)
+	if err != nil || cpuMs <= 0 {
+		return 0, 0, nil, fmt.Errorf("cpu limit %q", cs)
 	}
 	var hist []int
 	if rest != "" {
 		for _, f := range strings.Split(rest, ",") {
 			o, err := strconv.Atoi(f)
 			if err != nil || o < 0 || o >= len(ops) {
-				return 0, nil, fmt.Errorf("op %q", f)
+				return 0, 0, nil, fmt.Errorf("op %q", f)
 			}
 			hist = append(hist, o)
 		}
 	}
-	return spec, hist, nil
+	return spec, cpuMs, hist, nil
 }
 
 // ---------------------------------------------------------------- supervisor
@@ -136,7 +157,9 @@ type pool struct {
 	exe    string
 	free   chan *child // nil entries are slots without a process yet
 	spawns atomic.Int64
-	mu     sync.Mutex
+	// worker deaths that a second worker did not repeat (overload, external kill)
+	transient atomic.Int64
+	mu        sync.Mutex
 }
 
 func newPool(n int) (*pool, error) {
@@ -153,7 +176,7 @@ func newPool(n int) (*pool, error) {
 
 func (p *pool) spawn() (*child, error) {
 	cmd := exec.Command(p.exe)
-	cmd.Env = append(os.Environ(), workerEnv+"=1")
+	cmd.Env = append(os.Environ(), workerEnv+"=1", "GOMAXPROCS=2")
 	c := &child{cmd: cmd, stderr: &bytes.Buffer{}}
 	cmd.Stderr = c.stderr
 	var err error
@@ -178,8 +201,20 @@ func (c *child) stop() {
 	_ = c.cmd.Wait()
 }
 
-// call replays one history. died != "" means the child gave up on it.
+// call replays one history. died != "" means two workers in a row gave up on it.
 func (p *pool) call(spec int, hist []int) (res reply, died string) {
+	if res, died = p.callOnce(spec, hist, cpuLimit); died == "" || strings.HasPrefix(died, "supervisor:") {
+		return res, died
+	}
+	first := died
+	if res, died = p.callOnce(spec, hist, cpuConfirm); died == "" {
+		p.transient.Add(1)
+		return res, ""
+	}
+	return res, died + " [first attempt: " + first + "]"
+}
+
+func (p *pool) callOnce(spec int, hist []int, cpu time.Duration) (res reply, died string) {
 	c := <-p.free
 	defer func() { p.free <- c }()
 	if c != nil && c.served >= recycle {
@@ -194,14 +229,14 @@ func (p *pool) call(spec int, hist []int) (res reply, died string) {
 		}
 	}
 	c.served++
-	backstop := time.AfterFunc(wallLimit+15*time.Second, func() { _ = c.cmd.Process.Kill() })
-	_, werr := io.WriteString(c.stdin, formatReq(spec, hist))
+	kill := time.AfterFunc(backstop, func() { _ = c.cmd.Process.Kill() })
+	_, werr := io.WriteString(c.stdin, formatReq(spec, cpu, hist))
 	var line string
 	var rerr error
 	if werr == nil {
 		line, rerr = c.rd.ReadString('\n')
 	}
-	backstop.Stop()
+	kill.Stop()
 	switch {
 	case werr != nil || rerr != nil:
 		c.stop()
